@@ -84,7 +84,7 @@ def fieldJson (c f : Nat) : Json :=
   | none => Json.num (JsonNumber.fromNat f)
 
 /-- Labelled tree: like `abs`, plus the location of every node that is older than `k`. -/
-def labJson (k : Nat) : Nat → Store → Loc → Json
+def labJson (k : Nat) : Nat → Store → Nat → Json
   | 0, _, _ => Json.str "cut"
   | n + 1, h, l =>
     match h[l]? with
@@ -100,7 +100,7 @@ def labJson (k : Nat) : Nat → Store → Loc → Json
             | .ref r => labJson k n h r]).toArray]
 
 /-- `abs` as JSON (no labels): used to compare pure values. -/
-def absJson (n : Nat) (h : Store) (l : Loc) : Json := labJson 0 n h l
+def absJson (n : Nat) (h : Store) (l : Nat) : Json := labJson 0 n h l
 
 def gtreatStr : GTreat → String
   | .deep => "deep" | .fresh => "fresh" | .immutable => "immutable" | .shared => "shared"
